@@ -147,6 +147,10 @@ class Frame:
         self.raised: list = []  # conditions (relative to the frame's entry) under which an exception leaves the frame
 
 
+def is_prop(m: FuncInfo) -> bool:
+    return m.is_property or any(d.split(".")[-1] in ("cached_property", "lazy_property") for d in m.decorators)
+
+
 def term_of(v: Val) -> tuple:
     if isinstance(v, Sym):
         return v.term
@@ -380,7 +384,7 @@ class Interp:
             return f_and(parts)
         if isinstance(e, ast.Call) and isinstance(e.func, ast.Name) and self._is_builtin(e.func.id, fr):
             n = e.func.id
-            if n == "bool" and len(e.args) == 1:
+            if n in ("bool", "len") and len(e.args) == 1:
                 return self.truth_expr(e.args[0], fr)
             if n in ("any", "all") and len(e.args) == 1:
                 v = self.eval(e.args[0], fr)
@@ -483,6 +487,10 @@ class Interp:
         if isinstance(container, Alt):
             return f_or([f_and([g, self._contains(o, item, node, fr)]) for g, o in container.options])
         ti = term_of(item)
+        if isinstance(container, Sym) and isinstance(item, Sym) and item.term[0] == "key":
+            base = container.term[1] if container.term[0] in ("keys", "copy") and len(container.term) == 2 else container.term
+            if item.term[1] == base:
+                return TRUE  # a key obtained by iterating this very mapping
         if isinstance(container, (Coll, DictV)) and not container.entries:
             return FALSE
         if isinstance(container, Tup) and isinstance(item, Const) and all(isinstance(x, Const) for x in container.items):
@@ -811,10 +819,14 @@ class Interp:
                     bounds.append(bv.value if isinstance(bv, Const) and (bv.value is None or isinstance(bv.value, int)) else "?")
                 if "?" not in bounds and all(g == TRUE for _x, g in ents):
                     ents = ents[slice(*bounds)]
+                    if isinstance(v, Tup):
+                        return Tup(tuple(x for x, _g in ents))
                 else:
                     self.note(f"slice with symbolic bounds `{ast.unparse(node)[:40]}`")
                     ents = [(x, f_and([g, self.taint("slice", node)])) for x, g in ents]
                 return Coll(v.kind if isinstance(v, Coll) else "list", ents, self.serial())
+            if isinstance(v, Sym) and sl.lower is None and sl.upper is None and isinstance(sl.step, ast.UnaryOp) and isinstance(sl.step.op, ast.USub) and isinstance(sl.step.operand, ast.Constant) and sl.step.operand.value == 1:
+                return Sym(("reversed", v.term))
             return Sym(("slice", term_of(v)))
         idx = self.eval(sl, fr)
         if isinstance(v, Tup) and isinstance(idx, Const) and isinstance(idx.value, int) and -len(v.items) <= idx.value < len(v.items):
@@ -847,7 +859,7 @@ class Interp:
                 return v.fields[attr]
             m = self.repo.lookup_method(v.cls, attr)
             if m is not None:
-                if m.is_property:
+                if is_prop(m):
                     return self.invoke(m, v, [], {}, None, node, fr)
                 if m.is_staticmethod:
                     return Fn(m, None)
@@ -859,6 +871,8 @@ class Interp:
                     return self.eval_in_module(c.class_attrs[attr], c)
             if attr == "__dict__":
                 return DictV([(Const(k), x, TRUE) for k, x in v.fields.items()], self.serial())
+            if attr == "__class__":
+                return ClsV(v.cls)
             v.entry_reads.add(attr)
             return Sym(("attr", term_of(v), attr))
         if isinstance(v, ClsV):
@@ -877,7 +891,7 @@ class Interp:
             for c in mro:
                 if after and attr in c.methods:
                     m = c.methods[attr]
-                    if m.is_property and isinstance(v.selfv, Val):
+                    if is_prop(m) and isinstance(v.selfv, Val):
                         return self.invoke(m, v.selfv, [], {}, None, node, fr)
                     return Fn(m, v.selfv)
                 if c is v.ci or c.fq == v.ci.fq:
@@ -896,7 +910,7 @@ class Interp:
                 impls = [m for m in self.repo.implementations(ci, attr) if not m.is_abstract]
                 if len(impls) == 1 and self.descend(impls[0]):
                     m = impls[0]
-                    if m.is_property:
+                    if is_prop(m):
                         return self.invoke(m, v, [], {}, None, node, fr)
                     return Fn(m, None if m.is_staticmethod else v)
             return Sym(("attr", v.term, attr), self._attr_cls(ci, attr))
@@ -998,6 +1012,8 @@ class Interp:
                 name = t[2]
                 if name in ("values", "items", "keys") and not args and isinstance(t[1], tuple):
                     return Sym((name, t[1]))
+                if name == "get" and args and isinstance(args[0], Sym) and args[0].term[0] == "key" and args[0].term[1] == t[1]:
+                    return Sym(("val", t[1], args[0].term[-1]))
                 if name in ("startswith", "endswith") and isinstance(t[1], tuple):
                     s = Sym(("strtest", name, t[1], *[term_of(a) for a in args]))
                     self.atom_info.setdefault(show_term(s.term), {"kind": "strtest", "term": s.term, "node": node, "fi": fr.fi if fr else None, "args": list(args), "recv": t[1]})
@@ -1102,7 +1118,7 @@ class Interp:
             inst.constructing = False
             self.events.append(Event("new", ci.name, inst, list(args), dict(kwargs), self.guard(), node, fr.fi if fr else None, inst))
             return inst
-        if init is None and is_dc and self.descend_class(ci):
+        if init is None and (is_dc or any(c.ann_attrs for c in self.repo.mro(ci))) and self.descend_class(ci):
             inst = Inst(ci, {}, self.serial(), made_at=(fr.fi if fr else None, node))
             self.instances.append(inst)
             names: list[str] = []
@@ -1159,10 +1175,20 @@ class Interp:
     # ------------------------------------------------------------------ builtins and library functions
     def builtin(self, name: str, args: list, kwargs: dict, node: ast.AST | None, fr: Frame | None) -> Val:
         a0 = args[0] if args else None
+        if name == "type" and len(args) == 1 and isinstance(a0, Inst):
+            return ClsV(a0.cls)
         if name in ("set", "list", "tuple", "frozenset", "sorted", "reversed", "iter"):
             kind = {"set": "set", "frozenset": "set"}.get(name, "list")
             if a0 is None:
                 return Coll(kind, [], self.serial())
+            if name == "reversed" and isinstance(a0, Sym):
+                return Sym(("reversed", a0.term))
+            if name == "reversed" and isinstance(a0, Tup):
+                return Tup(tuple(reversed(a0.items)))
+            if name == "tuple" and isinstance(a0, Tup):
+                return a0
+            if name in ("tuple", "list") and isinstance(a0, Sym) and a0.term[0] == "reversed":
+                return a0
             return self.copy_coll(a0, kind)
         if name == "dict":
             d = DictV([], self.serial())
@@ -1586,7 +1612,16 @@ class Interp:
             nf = getattr(s, "_func", None)
             fr.env[s.name] = Fn(nf, None, fr) if nf is not None else Sym(("def", s.name))
             return FALSE, FALSE
-        if isinstance(s, (ast.Pass, ast.Import, ast.ImportFrom, ast.Global, ast.Nonlocal, ast.Assert, ast.Delete, ast.ClassDef)):
+        if isinstance(s, ast.Assert):
+            t = self.simp(self.truth_expr(s.test, fr))
+            if t == TRUE:
+                return FALSE, FALSE
+            self.path.append(f_not(t))
+            self.events.append(Event("raise", "AssertionError", None, [], {}, self.guard(), s, fr.fi))
+            fr.raised.append(f_and(self.path[fr.base:]))
+            self.path.pop()
+            return f_not(t), FALSE
+        if isinstance(s, (ast.Pass, ast.Import, ast.ImportFrom, ast.Global, ast.Nonlocal, ast.Delete, ast.ClassDef)):
             return FALSE, FALSE
         if isinstance(s, ast.Match):
             self.path.append(self.taint("match-statement", s))
